@@ -133,6 +133,57 @@ LocCases == <<
   [Version |-> 0, Size |-> 5 * 16 + 3, HorizPre |-> 16 + 1, VertPre |-> 16, Latitude |-> <<128, 0, 3, 232>>, Longitude |-> <<128, 0, 234, 96>>, Altitude |-> <<0, 152, 150, 28>>] >>
 LocMsg(j) == One1(29, LocCases[j])
 
+(* Boundary VALUES of the kinds the harness pre-decodes or whose text is not a plain number (family "exotic", part of   *)
+(* mode "nasty"): LOC altitude around the -100000.00 m origin (sign boundary), 0 and 2^32-1; angles at the equator /    *)
+(* prime meridian +-0.001", at 59.999", one minute, +-90 / +-180 degrees; every size / precision base 1..9 x exponent   *)
+(* 0..9 and 0; RRSIG times 0, 1, 2^31-1, 2^31, 2^31+1, 2^32-1; IPv6 ::, ::1, all-ones, IPv4-mapped, in AAAA, gateways   *)
+(* and hints; IPv4 0.0.0.0 / 255.255.255.255; APL prefix 0 and maximal; EUI-48/64 and ILNP values all-zero / all-ones.  *)
+LocWith(lat, lon, alt, sz) == [Version |-> 0, Size |-> sz, HorizPre |-> sz, VertPre |-> sz, Latitude |-> lat, Longitude |-> lon, Altitude |-> alt]
+LocAlt(j)  == IF j <= 203 THEN U32(9999898 + j)                       \* -1.01 m .. +1.01 m
+              ELSE << Z4, Rep(4, 255), U32(1), U32(99), U32(100), U32(9999000), U32(19999999), U32(20000000), <<127, 255, 255, 255>>, <<128, 0, 0, 0>> >>[j - 203]
+NLocAlt    == 213
+LocLats    == << <<128, 0, 0, 0>>, <<128, 0, 0, 1>>, <<127, 255, 255, 255>>, <<147, 79, 217, 0>>, <<108, 176, 39, 0>>, <<147, 79, 216, 255>>,
+                 <<108, 176, 39, 1>>, <<128, 0, 234, 95>>, <<128, 0, 234, 96>>, <<128, 54, 238, 127>>, <<127, 201, 17, 129>> >>
+LocLons    == << <<128, 0, 0, 0>>, <<128, 0, 0, 1>>, <<127, 255, 255, 255>>, <<166, 159, 178, 0>>, <<89, 96, 78, 0>>, <<166, 159, 177, 255>>,
+                 <<89, 96, 78, 1>>, <<128, 0, 234, 95>>, <<128, 0, 234, 96>>, <<128, 54, 238, 127>>, <<127, 201, 17, 129>> >>
+LocSizes   == <<0>> \o [x \in 1..90 |-> (1 + ((x - 1) \div 10)) * 16 + ((x - 1) % 10)]
+TimeBnd    == << Z4, <<0, 0, 0, 1>>, <<127, 255, 255, 255>>, <<128, 0, 0, 0>>, <<128, 0, 0, 1>>, Rep(4, 255), <<101, 83, 241, 0>> >>
+V6Bnd      == << Rep(16, 0), Rep(15, 0) \o <<1>>, Rep(16, 255), Rep(10, 0) \o <<255, 255, 192, 0, 2, 1>>, Rep(10, 0) \o <<255, 255, 0, 0, 0, 0>>,
+                 <<32, 1, 13, 184>> \o Rep(12, 0), <<254, 128>> \o Rep(13, 0) \o <<1>>, Rep(12, 0) \o <<192, 0, 2, 1>> >>
+V4Bnd      == << Z4, Rep(4, 255), <<127, 0, 0, 1>>, <<1, 0, 0, 0>> >>
+RrsigWith(e, i) == [TypeCovered |-> 1, Algorithm |-> 13, Labels |-> 2, OrigTtl |-> Ttl1h, Expiration |-> e, Inception |-> i, KeyTag |-> 4660,
+                    SignerName |-> NameA, Signature |-> Ramp(64)]
+ExoticCases ==      \* everything but LOC: << type, fields >>
+     [j \in 1..Len(TimeBnd) |-> << 46, RrsigWith(TimeBnd[j], TimeBnd[1 + (j % Len(TimeBnd))]) >>]
+  \o [j \in 1..Len(TimeBnd) |-> << 24, RrsigWith(TimeBnd[1 + ((j + 2) % Len(TimeBnd))], TimeBnd[j]) >>]
+  \o [j \in 1..Len(V6Bnd) |-> << 28, [AAAA |-> V6Bnd[j]] >>]
+  \o [j \in 1..Len(V6Bnd) |-> << 45, [Precedence |-> 1, GatewayType |-> 2, Algorithm |-> 2, GatewayHost |-> V6Bnd[j], PublicKey |-> <<1, 3>>] >>]
+  \o [j \in 1..Len(V6Bnd) |-> << 260, [Precedence |-> 1, GatewayType |-> 2 + 128 * (j % 2), GatewayHost |-> V6Bnd[j]] >>]
+  \o [j \in 1..Len(V4Bnd) |-> << 1, [A |-> V4Bnd[j]] >>]
+  \o [j \in 1..Len(V4Bnd) |-> << 105, [Preference |-> 65535, Locator32 |-> V4Bnd[j]] >>]
+  \o [j \in 1..Len(V4Bnd) |-> << 45, [Precedence |-> 1, GatewayType |-> 1, Algorithm |-> 2, GatewayHost |-> V4Bnd[j], PublicKey |-> <<>>] >>]
+  \o [j \in 1..Len(V4Bnd) |-> << 260, [Precedence |-> 255, GatewayType |-> 1 + 128 * (j % 2), GatewayHost |-> V4Bnd[j]] >>]
+  \o << << 64, [Priority |-> 1, Target |-> <<>>, Value |-> << Par(6, [Hint |-> << Rep(16, 0), Rep(15, 0) \o <<1>>, Rep(16, 255), Rep(12, 0) \o <<192, 0, 2, 1>> >>]),
+                                                              Par(4, [Hint |-> V4Bnd]) >>] >>,
+        << 42, [Prefixes |-> << Apl(1, FALSE, 0, Z4), Apl(1, TRUE, 32, Rep(4, 255)), Apl(1, FALSE, 32, Z4), Apl(1, TRUE, 31, <<255, 255, 255, 254>>),
+                                Apl(2, FALSE, 0, Rep(16, 0)), Apl(2, TRUE, 128, Rep(16, 255)), Apl(2, FALSE, 128, Rep(16, 0)), Apl(2, FALSE, 127, Rep(15, 255) \o <<254>>),
+                                Apl(2, TRUE, 96, Rep(10, 0) \o <<255, 255, 0, 0, 0, 0>>), Apl(1, FALSE, 1, <<128, 0, 0, 0>>) >>] >>,
+        << 108, [Address |-> Rep(6, 0)] >>, << 108, [Address |-> Rep(6, 255)] >>, << 108, [Address |-> <<0, 0, 94, 0, 83, 42>>] >>,
+        << 109, [Address |-> Rep(8, 0)] >>, << 109, [Address |-> Rep(8, 255)] >>, << 109, [Address |-> <<0, 0, 94, 239, 16, 0, 0, 42>>] >>,
+        << 104, [Preference |-> 0, NodeID |-> Rep(8, 0)] >>, << 104, [Preference |-> 65535, NodeID |-> Rep(8, 255)] >>,
+        << 104, [Preference |-> 10, NodeID |-> <<0, 20, 79, 255, 255, 32, 238, 100>>] >>,
+        << 106, [Preference |-> 0, Locator64 |-> Rep(8, 0)] >>, << 106, [Preference |-> 65535, Locator64 |-> Rep(8, 255)] >>,
+        << 106, [Preference |-> 10, Locator64 |-> <<32, 1, 13, 184, 17, 64, 16, 0>>] >> >>
+NExotic  == 2 * Len(TimeBnd) + 3 * Len(V6Bnd) + 4 * Len(V4Bnd) + 14
+LocBndMsg(j) ==
+  LET eq == <<128, 0, 0, 0>>  a0 == <<0, 152, 150, 128>> IN
+  IF j <= NLocAlt THEN One1(29, LocWith(<<137, 192, 195, 248>>, <<116, 211, 145, 119>>, LocAlt(j), 18))
+  ELSE IF j <= NLocAlt + Len(LocLats) THEN One1(29, LocWith(LocLats[j - NLocAlt], eq, a0, 19))
+  ELSE IF j <= NLocAlt + Len(LocLats) + Len(LocLons) THEN One1(29, LocWith(eq, LocLons[j - NLocAlt - Len(LocLats)], a0, 22))
+  ELSE One1(29, LocWith(eq, eq, a0, LocSizes[j - NLocAlt - Len(LocLats) - Len(LocLons)]))
+NLocBnd == NLocAlt + Len(LocLats) + Len(LocLons) + Len(LocSizes)
+ExoticMsg(j) == One1(ExoticCases[j][1], ExoticCases[j][2])
+
 \* nasty owners, each with a TXT record
 OwnerMsg(j) == Msg(H0, <<>>, << RR(<< NastyLabels[j], <<120>> >>, 16, 1, Ttl1h, [Txt |-> << <<104, 105>> >>]) >>, <<>>, <<>>)
 
@@ -171,6 +222,8 @@ PInit ==
            \/ t = 50 /\ \E j \in 1..(Len(N3Salts) * Len(N3Maps)) : v = <<-1, 0, j>>
            \/ t = 37 /\ \E j \in 1..(Len(CertCodes) + Len(AlgCodes)) : v = <<-2, 0, j>>
            \/ t = 29 /\ \E j \in 1..Len(LocCases) : v = <<-3, 0, j>>
+           \/ t = 29 /\ \E j \in 1..NLocBnd : v = <<-4, 0, j>>
+           \/ t = 28 /\ \E j \in 1..NExotic : v = <<-5, 0, j>>
   \/ PMode = "blobs" /\ \/ \E x \in 1..Len(BlobTypes), k \in 1..Len(BlobSizes) : InShard(BlobTypes[x] + k) /\ v = <<BlobTypes[x], k>>
                         \/ InShard(0) /\ v = <<50, 0>>
   \/ PMode = "codes" /\ \E k \in 1..2 : \E c \in CodeSet : InShard(c) /\ v = <<k, c>>
@@ -182,6 +235,8 @@ PCase == IF PMode = "c01" THEN Case
          ELSE IF v[1] = -1 THEN Nsec3Msg(v[3])
          ELSE IF v[1] = -2 THEN CertMsg(v[3])
          ELSE IF v[1] = -3 THEN LocMsg(v[3])
+         ELSE IF v[1] = -4 THEN LocBndMsg(v[3])
+         ELSE IF v[1] = -5 THEN ExoticMsg(v[3])
          ELSE NastyMsg(v[1], v[2], v[3])
 
 \* a value that text or the wire can produce: an APL item names a network, its address has no bits beyond the prefix
